@@ -28,6 +28,7 @@ pub fn def() -> CheckDef {
         assumptions: &["the base image must itself pass open_strict; otherwise the case is skipped and counted (that is C02/C03/C04's subject)"],
         cpu_limit_s: 240,
         fault_kinds: "F-FC deviation recipes (enumerated at every place, and combined), plus a sample of C05 damage for clause (a)",
+        count_subruns: true,
     }
 }
 
